@@ -74,6 +74,9 @@ M = [
  ("C12","extra-coin-off-by-one", "contracts/basset_sei_validators_registry/src/common.rs",
   "    let mut delegations = vec![Uint128::zero(); validators.len()];\n    for (index, validator) in validators.iter().enumerate() {\n        let extra_coin = if (index + 1) as u128 <= remaining_coins {",
   "    let mut delegations = vec![Uint128::zero(); validators.len()];\n    for (index, validator) in validators.iter().enumerate() {\n        let extra_coin = if ((index + 1) as u128) < remaining_coins {"),
+ ("C12","undelegation-extra-coin-for-one-too-many", "contracts/basset_sei_validators_registry/src/common.rs",
+  "        for (index, validator) in validators.iter_mut().enumerate() {\n            let extra_coin = if (index + 1) as u128 <= remaining_coins {",
+  "        for (index, validator) in validators.iter_mut().enumerate() {\n            let extra_coin = if (index as u128) <= remaining_coins {"),
  ("C13","partial-redelegation", "contracts/basset_sei_validators_registry/src/contract.rs",
   "            let (_, delegations) =\n                calculate_delegations(delegation.amount.amount, validators.as_slice())?;\n\n            for i in 0..delegations.len() {\n                if delegations[i].is_zero() {\n                    continue;\n                }\n                redelegations.push((\n                    validators[i].address.clone(),\n                    Coin::new(delegations[i].u128(), delegation.amount.denom.as_str()),\n                ));\n            }\n\n            let regelegate_msg = RedelegateProxy {\n                src_validator: validator_address,\n                redelegations,\n            };\n            messages.push(CosmosMsg::Wasm(WasmMsg::Execute {\n                contract_addr: hub_address.clone().into_string(),\n                msg: to_json_binary(&regelegate_msg)?,\n                funds: vec![],\n            }));\n\n            let msg = UpdateGlobalIndex {\n                airdrop_hooks: None,\n            };\n            messages.push(CosmosMsg::Wasm(WasmMsg::Execute {\n                contract_addr: hub_address.into_string(),\n                msg: to_json_binary(&msg)?,\n                funds: vec![],\n            }));\n        }\n    }\n\n    let res = Response::new().add_messages(messages);\n    Ok(res)\n}\n\npub fn redelegations(",
   "            let (_, delegations) =\n                calculate_delegations(delegation.amount.amount, validators.as_slice())?;\n\n            for i in 0..delegations.len() {\n                if delegations[i].is_zero() {\n                    continue;\n                }\n                redelegations.push((\n                    validators[i].address.clone(),\n                    Coin::new(delegations[i].u128(), delegation.amount.denom.as_str()),\n                ));\n            }\n            if redelegations.len() > 2 {\n                redelegations.truncate(2);\n            }\n\n            let regelegate_msg = RedelegateProxy {\n                src_validator: validator_address,\n                redelegations,\n            };\n            messages.push(CosmosMsg::Wasm(WasmMsg::Execute {\n                contract_addr: hub_address.clone().into_string(),\n                msg: to_json_binary(&regelegate_msg)?,\n                funds: vec![],\n            }));\n\n            let msg = UpdateGlobalIndex {\n                airdrop_hooks: None,\n            };\n            messages.push(CosmosMsg::Wasm(WasmMsg::Execute {\n                contract_addr: hub_address.into_string(),\n                msg: to_json_binary(&msg)?,\n                funds: vec![],\n            }));\n        }\n    }\n\n    let res = Response::new().add_messages(messages);\n    Ok(res)\n}\n\npub fn redelegations("),
